@@ -22,7 +22,25 @@ type recConn struct {
 	rd     chan []byte
 	closed chan struct{}
 	once   sync.Once
-	fail   bool // WriteTo returns an error (fault injection)
+	fail   bool          // WriteTo returns an error (fault injection)
+	stall  chan struct{} // when set, WriteTo blocks until it is closed (a slow or stalled transmit path)
+}
+
+// setStall makes every following WriteTo block; the returned function releases them.
+func (c *recConn) setStall() func() {
+	ch := make(chan struct{})
+	c.mu.Lock()
+	c.stall = ch
+	c.mu.Unlock()
+	var once sync.Once
+	return func() {
+		once.Do(func() {
+			c.mu.Lock()
+			c.stall = nil
+			c.mu.Unlock()
+			close(ch)
+		})
+	}
 }
 
 type sentFrame struct {
@@ -37,6 +55,12 @@ func newRecConn() *recConn {
 func (c *recConn) WriteTo(b []byte, _ net.Addr) (int, error) {
 	if c.fail {
 		return 0, errors.New("injected write failure")
+	}
+	c.mu.Lock()
+	st := c.stall
+	c.mu.Unlock()
+	if st != nil {
+		<-st
 	}
 	cp := append([]byte(nil), b...)
 	c.mu.Lock()
